@@ -33,7 +33,7 @@ VARIABLES l, viol, run, maxdur, confirmed, offscript, ntoks, nruns
 Trace == ndJsonDeserialize(IOEnv.VERIF_TRACE)
 Ev == Trace[l]
 
-frozen == <<now, slack, ninst, nextTok, pc, tok, tokk, lastNow, overdue, waitFor, deadline, tnext, hist, lz, want, startAt, finishSeen>>
+frozen == <<now, slack, ninst, nextTok, pc, tok, tokk, lastNow, overdue, waitFor, deadline, tnext, hist, lz, want, startAt, finishSeen, lastNext>>
 tvars == <<vars, l, viol, run, maxdur, confirmed, offscript, ntoks, nruns>>
 
 TraceInit ==
@@ -89,6 +89,9 @@ TraceTok ==
                  <<"shot-shorter-than-min-wait", r.d = "fire" /\ Ev.dur >= 0 /\ Ev.dur < Ev.mw>>,
                  <<"paced-longer-than-needed", r.d = "fire" /\ Ev.mw > 0 /\
                                                Ev.dur > (IF Ev.srv > Ev.mw THEN Ev.srv ELSE Ev.mw) + PaceSlackUs>>,
+                 \* the gun was SEEN in its pacing sleep (stack sample of the shooting goroutine) although the target alone had
+                 \* already taken min_waiting_time to serve the shot: the wait is not measured from the start of the shot
+                 <<"paced-although-served-longer", r.d = "fire" /\ Ev.mw > 0 /\ Ev.psleep /\ Ev.srv >= Ev.mw>>,
                  <<"script-decision-diverged", scripted /\ decided /\ OnScript(Ev) /\ r.d # Ev.exp>> >>)
            /\ confirmed' = IF scripted /\ decided /\ OnScript(Ev) /\ r.d = Ev.exp THEN confirmed + 1 ELSE confirmed
            /\ offscript' = IF scripted /\ ~(decided /\ OnScript(Ev)) THEN offscript + 1 ELSE offscript
